@@ -2,3 +2,5 @@
 pub mod chunks;
 pub mod bytes;
 pub mod html;
+pub mod cases;
+pub mod xml;
